@@ -76,13 +76,13 @@ TEXT = {
          "note": S_NOTE},
  "C09": {"level": ("Proved: dot = |value| at the base angle or base+pi exactly when the computed value tests negative, orthogonality test definition (G); the two angles "
                   "are blade 0 / blade 2 with remainder 0; magnitude >= 0 and <= rnd(|a||b|) (Cauchy-Schwarz in rounded arithmetic) (S); the returned signed value is "
-                  "|a||b|cos(Tb-Ta) (true pi) within |a||b|(1e-10+1e-14) in rounded arithmetic, and a.b, b.a agree within twice that (B); value, symmetry, a.a=|a|^2 in "
+                  "|a||b|cos(Tb-Ta) (true pi) within |a||b|(1e-10+1e-14) in rounded arithmetic, a.b and b.a agree within twice that, a.a = |a|^2 and |a.b| <= |a||b| up to the same slack (B); value, symmetry, a.a=|a|^2 in "
                   "exact arithmetic (E). "),
          "note": S_NOTE},
  "C10": {"level": ("Proved: geo = dot + wedge and meet = dual(wedge(dual,dual)) definitionally; wedge magnitude/angle structure incl. the half turn iff sine tests "
                   "negative (G); wedge magnitude in [0, rnd(|a||b|)], angle canonical with blade in [ba+bb+1, ba+bb+4] (S); magnitude |a||b||sin(Tb-Ta)| within an "
                   "explicit rounding bound, and the wedge's float total is Ta+Tb+pi_f/2 (+ a half turn iff the computed sine tests negative) up to one snap and one "
-                  "rounding (B); sine value, parallel => 0, anticommutation (same magnitude, exactly two blades on), Lagrange identity dot^2+wedge^2=(|a||b|)^2 exactly "
+                  "rounding, |a^b| and |b^a| agree within twice the magnitude bound, dot^2 + wedge^2 = (|a||b|)^2 within ~4e-10 relative (B); sine value, parallel => 0, anticommutation (same magnitude, exactly two blades on), Lagrange identity dot^2+wedge^2=(|a||b|)^2 exactly "
                   "(E). "),
          "note": S_NOTE},
  "C11": {"level": ("Proved: projection independent of |b| beyond the 1e-10 test, structure (|a||cos| along b's angle, +pi iff factor negative), tiny-axis branch total, "
@@ -93,7 +93,7 @@ TEXT = {
                   "projection and rejection add up to those of a in EVERY branch of the underlying subtraction, incl. a parallel to b "
                   "(project_add_reject_every_branch_float); the projection is the vector (a.b^)b^ with a signed length within |a|(1e-10+1e-14) of |a|cos(Tb-Ta) "
                   "(project_cartesian_float) and the rejection's component along b^ is bounded by twice the subtraction bound plus that accuracy "
-                  "(reject_orthogonal_float) (B). "),
+                  "(reject_orthogonal_float), Pythagoras |a|^2 = |p|^2 + |r|^2 up to the stated bound (project_pythagoras_float) (B). "),
          "note": S_NOTE},
  "C12": {"level": ("Proved: rotation returns the magnitude field itself and the angle sum; reflection never reads the axis length; scale-rotate branch law (G); full turn "
                   "adds exactly 4 blades keeping grade and remainder; rotation carries; reflection result canonical with at least twice the axis's blades (S); in ROUNDED "
@@ -119,7 +119,7 @@ TEXT = {
          "note": S_NOTE},
  "C15": {"level": ("Proved: tan = sin.div(cos), adj/opp = cos/sin scaled (definitional), cos/sin = |libm value| at base or base+pi iff the value tests negative (G); "
                   "lattice placement (cos on blade 0/2, sin on blade 1/3, remainder 0), magnitudes in [0,1] (S); magnitudes within the libm error of |cos T|,|sin T| for "
-                  "the true-pi total, and adj/opp magnitudes |g||cos T|, |g||sin T| within |g|(6e-15+2^-53), in rounded arithmetic (B); cos^2+sin^2=1, |tan T| off the "
+                  "the true-pi total, and adj/opp magnitudes |g||cos T|, |g||sin T| within |g|(6e-15+2^-53), cos^2+sin^2 = 1 within 3e-14, in rounded arithmetic (B); cos^2+sin^2=1 exactly, |tan T| off the "
                   "poles with odd grade and period pi, adj/opp are the Cartesian components (E). "),
          "note": S_NOTE},
  "C16": {"level": ("Proved: == implies identical blades; Geonum == adds magnitude; partial_cmp = Some(cmp) (G); cmp is the lexicographic order on (blade, remainder "
